@@ -118,3 +118,41 @@ def run_array_case(build, reference, arrays, allowed_mem=2_000_000_000):
         import shutil
 
         shutil.rmtree(tmp, ignore_errors=True)
+
+
+def run_lazy_case(build):
+    """C16 replay: build(xp, cubed, spec) composes an expression; reproduced == something was executed or written while
+    it was being built (compute spy + work_dir listing)."""
+    import os
+
+    import cubed
+    import cubed.array_api as xp
+    import cubed.core.array as ca
+
+    tmp = tempfile.mkdtemp(prefix="pyvc-replay-")
+    spec = cubed.Spec(work_dir=tmp, allowed_mem=2_000_000_000)
+    calls = []
+    orig = ca.CoreArray.compute
+
+    def spy(self, *a, **k):
+        calls.append(self.name)
+        return orig(self, *a, **k)
+
+    ca.CoreArray.compute = spy
+    try:
+        try:
+            build(xp, cubed, spec)
+            how = "built"
+        except EXPLICIT as e:
+            how = f"declined with {type(e).__name__}"
+        except Exception as e:  # noqa: BLE001
+            how = f"raised {type(e).__name__}: {e}"
+        files = [os.path.join(d, f) for d, _, fs in os.walk(tmp) for f in fs]
+        if calls or files:
+            return True, f"{how}; while building: compute() called on {calls}, {len(files)} file(s) written under work_dir"
+        return False, f"{how}; nothing executed, nothing written"
+    finally:
+        ca.CoreArray.compute = orig
+        import shutil
+
+        shutil.rmtree(tmp, ignore_errors=True)
